@@ -30,7 +30,8 @@ def build(defn, k):
     """-> (identifier, impl class, reference table entry, slot names, sigma pieces)"""
     ns = seams.load()
     role, ext, tags, pos = defn
-    ident = "zz%d" % k
+    # identifiers that contain the word the library strips from class names, at the end / in the middle / not at all
+    ident = ("zz%d", "zz%dcommand", "subcommand%dx")[k % 3] % k
     args = []
     slots = []
     slot_names = []
